@@ -577,6 +577,46 @@ fn finish_rec(m: &Machine, end: End, errors: Vec<String>, step_digests: Vec<u64>
 }
 
 /// Step-driven machine with (optionally) all per-step oracles.
+thread_local! {
+    /// a second, unrelated machine that is alive on the same thread and takes one step between any two
+    /// steps of the machine under test (C20: machines must not influence each other)
+    static DECOY: RefCell<Option<Axecutor>> = RefCell::new(None);
+}
+
+/// Same layout, different code at the same addresses: every second instruction of the program NOPed out.
+fn build_decoy(sc: &Sc) -> Option<Axecutor> {
+    let mut code = from_hex(&sc.code);
+    let orig = code.clone();
+    let mut dec = Decoder::with_ip(64, &orig, sc.code_start, DecoderOptions::NONE);
+    let mut k = 0;
+    while dec.can_decode() {
+        let pos = dec.position();
+        let ins = dec.decode();
+        if k % 2 == 0 && !ins.is_invalid() {
+            for b in code[pos..pos + ins.len()].iter_mut() {
+                *b = 0x90;
+            }
+        }
+        k += 1;
+    }
+    install_ax_rng(sc.rng_a ^ 0xDEC0);
+    let mut ax = catch(|| Axecutor::new(&code, sc.code_start, sc.entry)).ok()?.ok()?;
+    let _ = catch(|| {
+        if let Some(len) = sc.stack_len {
+            let _ = ax.init_stack(len);
+        }
+        for d in sc.data.iter() {
+            let _ = ax.mem_init_zero(d.start, d.len);
+        }
+        for (n, v) in sc.regs.iter() {
+            if let Some(i) = gpr_index(n) {
+                let _ = ax.reg_write_64(GPR64[i], v.wrapping_add(0x1111));
+            }
+        }
+    });
+    Some(ax)
+}
+
 fn drive_step(sc: &Sc, rng_seed: u64, ctx: &mut Ctx, oracles: bool, record_digests: bool) -> Rec {
     let mut m = match build(sc, rng_seed, true) {
         Ok(m) => m,
@@ -622,6 +662,14 @@ fn drive_step(sc: &Sc, rng_seed: u64, ctx: &mut Ctx, oracles: bool, record_diges
         let obs_before_fail = if must_fail && oracles { Some(observe(&m.ax)) } else { None };
         let log_start = m.host.borrow().log.len();
         // ---- the step ----
+        DECOY.with(|d| {
+            if let Some(dm) = d.borrow_mut().as_mut() {
+                // no hooks are registered on the decoy; whatever it does is its own business
+                set_dispatch(None);
+                let _ = do_step(dm);
+                install_dispatch(&m.host);
+            }
+        });
         let out = do_step(&mut m.ax);
         steps += 1;
         ctx.guest_steps += 1;
@@ -1509,7 +1557,16 @@ pub fn run(prop: &str, sc: &Sc, ctx: &mut Ctx) {
             compare(ctx, "C11", "equiv|bursts_vs_step", &bp, &b, None);
         }
         "C20" => {
+            // the second machine does not run alone: a decoy machine with different code at the same
+            // addresses is constructed first and takes a step before each of its steps
+            let with_decoy = sc.rng_b % 2 == 0;
+            if with_decoy {
+                let d = build_decoy(sc);
+                DECOY.with(|x| *x.borrow_mut() = d);
+                ctx.fault("decoy_machine_interleaved");
+            }
             let b2 = drive_step(sc, sc.rng_b, ctx, false, true);
+            DECOY.with(|x| *x.borrow_mut() = None);
             // per-step comparison first: it localises the divergence
             let n = b.step_digests.len().min(b2.step_digests.len());
             let mut diverged = false;
